@@ -9,6 +9,7 @@ nothing, refused procedures have no effect.
 -/
 import GoNfsd.Lemmas.Lookup
 import GoNfsd.Lemmas.BlockMap
+import GoNfsd.Lemmas.Names
 
 namespace GoNfsd.Props.C02
 open GoNfsd.Model.Fs GoNfsd.Gen.Consts
@@ -156,6 +157,15 @@ example :
       | .data n _ bytes => (n, bytes)
       | _ => (0, [])) = (8, [0, 0, 0, 0, 0, 7, 8, 9]) := by
   decide
+
+/-- A removed name is gone: in any reachable state (names unique), after a successful REMOVE or
+    RMDIR of `name` a LOOKUP of `name` in that directory finds nothing. -/
+theorem removed_name_is_gone (u : Bool) (sz : Nat) (ops : List (Op × Choice)) (s' : FS)
+    (dfh name : Bytes) (isdir : Bool) (d : Nat)
+    (hres : resolve (run (mkfs u sz) ops).1 dfh = some d)
+    (h : doRemove (run (mkfs u sz) ops).1 dfh name isdir = (s', .done)) :
+    lookupIn (s'.get d) name = none :=
+  removed_disappear _ s' dfh name isdir d (run_NU _ ops (mkfs_NU u sz)) hres h
 
 /-! ### block level (model M7, tied to the code by the `blockmap` correspondence) -/
 
